@@ -491,7 +491,7 @@ spif_mbuff_index(spif_mbuff_t self, spif_uint8_t c)
     spif_memidx_t i;
 
     ASSERT_RVAL(!SPIF_MBUFF_ISNULL(self), ((spif_memidx_t) -1));
-    for (tmp = self->buff, i = 0; ((int) *tmp != (int) (c)) && (i < self->len); i++, tmp++);
+    for (tmp = self->buff, i = 0; (i < self->len) && ((int) *tmp != (int) (c)); i++, tmp++);
     return (spif_memidx_t) ((spif_long_t) tmp - (spif_long_t) self->buff);
 }
 
